@@ -16,7 +16,8 @@
    observation.
    Guard: finding_class of that site (the same function as in the theorem C03_single_channel).  Termination is not in
    the theorem: a call that hangs is outside every guard unless the input holds a self-referential alias (finding 2:
-   the same inputs that end in RecursionError elsewhere).  Spec: channel_ok. *)
+   the same inputs that end in RecursionError elsewhere) or is nested more than 150 levels deep (finding 18: the key
+   expansion of _apply_actions is quadratic in the depth, so such inputs end in RecursionError or exceed the time limit).  Spec: channel_ok. *)
 From JV Require Import Lib.Base Model.C03ExnFlow Spec.C03ChannelSpec Gen.C03ExnIR Model.C03Instance.
 Open Scope N_scope.
 
@@ -50,7 +51,7 @@ Definition judge1 (c : case) : verdict :=
                     | Hung => true
                     | _ => false
                     end;
-         v_class := match c_obs c with Hung => if c_selfref c then 2 else 0 | _ => 0 end;
+         v_class := match c_obs c with Hung => if c_selfref c then 2 else if c_deep c then 18 else 0 | _ => 0 end;
          v_spec := channel_ok_asked x (c_asked c) (c_obs c) |}
   | Some cl =>
       match find (fun i => mem i (escape_set x (c_entry c)) && N.eqb (site_class ir_prog i) cl) (c_sites c) with
